@@ -41,22 +41,25 @@ section
 variable {exts : Array Ext} {nbF : Nat}
 
 /-- Repeated payloads of one later frame `g`: indices `[j, hi)`. -/
-theorem wRepeatsOfFrame_spec (hv : AllValid exts nbF) (g : Nat) (last : Bool) (lastLong : Option Nat) (z : Option Nat)
+theorem wRepeatsOfFrame_spec (hv : AllIF exts nbF) (hD : ExtsOk exts) (g : Nat) (last : Bool) (lastLong : Option Nat) (z : Option Nat)
     (j hi written : Nat) (hhi : hi ≤ exts.size) :
-    ∀ k, (∀ j' e, j ≤ j' → j' < hi → exts[j']? = some e → e.frame.toNat = g →
+    ∀ k, (∀ x ∈ seg exts j hi g, LenOk x) → (∀ j' e, j ≤ j' → j' < hi → exts[j']? = some e → e.frame.toNat = g →
         ((last = true ∧ lastLong = some j') ↔ z = some (k + (seg exts j j' g).length))) →
     (wRepeatsOfFrame exts g last lastLong j hi written).res = .ok (written + (seg exts j hi g).length) ∧
     content false (wRepeatsOfFrame exts g last lastLong j hi written).ops = repPayloads z k (seg exts j hi g) := by
   fun_induction wRepeatsOfFrame exts g last lastLong j hi written with
   | case1 j written hlt ih2 ih1 =>
-    intro k hflag
+    intro k hL hflag
     have hin : j < exts.size := by omega
     have hget : exts[j]? = some exts[j] := Array.getElem?_eq_getElem hin
     have hrd : rdE exts j = .ok exts[j] := by simp only [rdE]; rw [hget]
-    have hve := hv j _ hget
-    rw [hrd, W.lift_ok_bind, seg_step exts j hi g _ hlt hget]
+    have hif := hv j _ hget
+    have hsegstep := seg_step exts j hi g _ hlt hget
+    rw [hrd, W.lift_ok_bind, hsegstep]
     by_cases hfe : exts[j].frame = (g : Int)
-    · have hfn : exts[j].frame.toNat = g := by omega
+    · have hfn : exts[j].frame.toNat = g := by have := hif.fr_lo; omega
+      have hve : ValidExt nbF exts[j] := validExt_of hif (hL _ (by rw [hsegstep]; simp [hfn])) (hD j _ hget)
+      have hLt : ∀ x ∈ seg exts (j + 1) hi g, LenOk x := fun x hx => hL x (by rw [hsegstep]; exact List.mem_append_right _ hx)
       simp only [hfe, if_true]
       have hff : ((g : Int)).toNat = g := by omega
       simp only [hff, if_true, List.singleton_append, List.length_cons, repPayloads]
@@ -80,7 +83,7 @@ theorem wRepeatsOfFrame_spec (hv : AllValid exts nbF) (g : Nat) (last : Bool) (l
       obtain ⟨p1, p2⟩ := wPayload_spec hve (last && lastLong == some j)
       rw [W.bind_of_ok _ p1]
       simp only
-      obtain ⟨q1, q2⟩ := ih2 (k + 1) (by
+      obtain ⟨q1, q2⟩ := ih2 (k + 1) hLt (by
         intro j' e hj1 hj2 he hef
         have := hflag j' e (by omega) hj2 he hef
         rw [seg_split exts g (show j ≤ j + 1 by omega) hj1] at this
@@ -93,9 +96,9 @@ theorem wRepeatsOfFrame_spec (hv : AllValid exts nbF) (g : Nat) (last : Bool) (l
       refine ⟨?_, ?_⟩
       · rw [q1]; congr 1; omega
       · rw [content_append, p2, q2, hfl]
-    · have hfn : ¬ exts[j].frame.toNat = g := by have := hve.fr_lo; omega
+    · have hfn : ¬ exts[j].frame.toNat = g := by have := hif.fr_lo; omega
       simp only [hfe, hfn, if_false, List.nil_append]
-      exact ih1 k (by
+      exact ih1 k (fun x hx => hL x (by rw [hsegstep]; simp [hfn]; exact hx)) (by
         intro j' e hj1 hj2 he hef
         have := hflag j' e (by omega) hj2 he hef
         rw [seg_split exts g (show j ≤ j + 1 by omega) hj1] at this
@@ -104,17 +107,98 @@ theorem wRepeatsOfFrame_spec (hv : AllValid exts nbF) (g : Nat) (last : Bool) (l
         rw [h1] at this
         simpa using this)
   | case2 j written hge =>
-    intro k _
+    intro k _ _
     rw [seg_empty exts g (by omega)]
     simp [W.pure_eq, content, repPayloads]
+
+theorem wPayload_bad {x : Ext} (hif : IFExt nbF x) (hb : ¬ LenOk x) (flag : Bool) : (wPayload x flag).res = .err .badArg := by
+  have h1 := hif.id_lo; have h2 := hif.id_hi
+  have hid : (3 ≤ x.id ∧ x.id ≤ 127) := ⟨h1, h2⟩
+  unfold wPayload
+  simp only [hid, not_true_eq_false, if_false, and_self]
+  unfold LenOk at hb
+  by_cases hs : x.id < 32
+  · have c : (x.len < 0 ∨ x.len > 1) := by
+      apply Decidable.byContradiction; intro hc
+      exact hb ⟨by omega, fun _ => by omega⟩
+    simp only [hs, if_true, c, W.lift]
+  · have c : x.len < 0 := by
+      apply Decidable.byContradiction; intro hc
+      exact hb ⟨by omega, fun h => absurd h hs⟩
+    simp only [hs, if_false, c, if_true, W.lift]
+
+theorem wExt_bad {x : Ext} (hif : IFExt nbF x) (hb : ¬ LenOk x) (flag : Bool) : (wExt x flag).res = .err .badArg := by
+  have h1 := hif.id_lo; have h2 := hif.id_hi
+  have hid : (3 ≤ x.id ∧ x.id ≤ 127) := ⟨h1, h2⟩
+  simp only [wExt, W.bind_eq, W.bind, W.emit, hid, not_true_eq_false, if_false, and_self, wPayload_bad hif hb]
+
+theorem wPayload_res_ok {x : Ext} (hif : IFExt nbF x) (hok : LenOk x) (flag : Bool) : (wPayload x flag).res = .ok () := by
+  have h1 := hif.id_lo; have h2 := hif.id_hi
+  have hid : (3 ≤ x.id ∧ x.id ≤ 127) := ⟨h1, h2⟩
+  unfold wPayload
+  simp only [hid, not_true_eq_false, if_false, and_self]
+  obtain ⟨l1, l2⟩ := hok
+  by_cases hs : x.id < 32
+  · have := l2 hs
+    have c : ¬ (x.len < 0 ∨ x.len > 1) := by omega
+    simp only [hs, if_true, c, if_false]
+    split <;> rfl
+  · have c : ¬ (x.len < 0) := by omega
+    simp only [hs, if_false, c]
+    rfl
+
+theorem wExt_res_ok {x : Ext} (hif : IFExt nbF x) (hok : LenOk x) (flag : Bool) : (wExt x flag).res = .ok () := by
+  have h1 := hif.id_lo; have h2 := hif.id_hi
+  have hid : (3 ≤ x.id ∧ x.id ≤ 127) := ⟨h1, h2⟩
+  simp only [wExt, W.bind_eq, W.bind, W.emit, hid, not_true_eq_false, if_false, and_self, wPayload_res_ok hif hok]
+
+theorem W.bind_of_err {α β : Type} {x : W α} {e : Err} (f : α → W β) (h : x.res = .err e) : (x >>= f).res = .err e := by
+  simp only [W.bind_eq, W.bind, h]
+
+/-- A repeated extension with an inadmissible length makes the payload loop return `OPUS_BAD_ARG`. -/
+theorem wRepeatsOfFrame_bad (hv : AllIF exts nbF) (g : Nat) (last : Bool) (lastLong : Option Nat)
+    (j hi written : Nat) (hhi : hi ≤ exts.size) :
+    (∃ x ∈ seg exts j hi g, ¬ LenOk x) → (wRepeatsOfFrame exts g last lastLong j hi written).res = .err .badArg := by
+  fun_induction wRepeatsOfFrame exts g last lastLong j hi written with
+  | case1 j written hlt ih2 ih1 =>
+    intro hbad
+    have hin : j < exts.size := by omega
+    have hget : exts[j]? = some exts[j] := Array.getElem?_eq_getElem hin
+    have hrd : rdE exts j = .ok exts[j] := by simp only [rdE]; rw [hget]
+    have hif := hv j _ hget
+    have hsegstep := seg_step exts j hi g _ hlt hget
+    rw [hrd, W.lift_ok_bind]
+    rw [hsegstep] at hbad
+    by_cases hfe : exts[j].frame = (g : Int)
+    · have hfn : exts[j].frame.toNat = g := by have := hif.fr_lo; omega
+      simp only [hfe, if_true]
+      simp only [hfn, if_true, List.singleton_append] at hbad
+      by_cases hok : LenOk exts[j]
+      · obtain ⟨x, hx, hxb⟩ := hbad
+        have hx' : x ∈ seg exts (j + 1) hi g := by
+          rcases List.mem_cons.mp hx with rfl | h
+          · exact absurd hok hxb
+          · exact h
+        have hres : (wPayload exts[j] (last && lastLong == some j)).res = .ok () := wPayload_res_ok hif hok _
+        rw [W.bind_of_ok _ hres]
+        exact ih2 ⟨x, hx', hxb⟩
+      · exact W.bind_of_err _ (wPayload_bad hif hok _)
+    · have hfn : ¬ exts[j].frame.toNat = g := by have := hif.fr_lo; omega
+      simp only [hfe, if_false]
+      simp only [hfn, if_false, List.nil_append] at hbad
+      exact ih1 hbad
+  | case2 j written hge =>
+    intro ⟨x, hx, _⟩
+    rw [seg_empty exts g (by omega)] at hx; cases hx
 
 /-- Number of payloads written for the queues `rs`. -/
 def takeTotal (R : Nat) (rs : List (List Ext)) : Nat := (rs.map (fun r => (r.take R).length)).sum
 
 /-- The repeated payloads of all later frames `g, g+1, …`. -/
-theorem wRepeatsLoop_spec (hv : AllValid exts nbF) (mx : List Nat) (R : Nat) (last : Bool) (lastLong llp : Option Nat)
+theorem wRepeatsLoop_spec (hv : AllIF exts nbF) (hD : ExtsOk exts) (mx : List Nat) (R : Nat) (last : Bool) (lastLong llp : Option Nat)
     (rep0 : List Nat) (hr0 : rep0.length = nbF) (g : Nat) (s : GSt) :
     s.repIdx = rep0 → s.minIdx.length = nbF →
+    (∀ g', g ≤ g' → g' < nbF → ∀ x ∈ seg exts (s.minIdx.getD g' 0) (rep0.getD g' 0) g', LenOk x) →
     (∀ g', g ≤ g' → g' < nbF → s.minIdx.getD g' 0 ≤ rep0.getD g' 0 ∧ rep0.getD g' 0 ≤ exts.size ∧
       seg exts (s.minIdx.getD g' 0) (rep0.getD g' 0) g' = (remQ exts mx s.minIdx g').take R) →
     (∀ g' j' e, g ≤ g' → g' + 1 < nbF → exts[j']? = some e → e.frame.toNat = g' → ¬ (last = true ∧ lastLong = some j')) →
@@ -128,13 +212,13 @@ theorem wRepeatsLoop_spec (hv : AllValid exts nbF) (mx : List Nat) (R : Nat) (la
       content false (wRepeatsLoop exts nbF last lastLong g s).ops = repBlock R last llp (remsFrom exts mx s.minIdx nbF g) := by
   fun_induction wRepeatsLoop exts nbF last lastLong g s with
   | case1 g s hlt ih =>
-    intro hrep hml hseg hfl1 hfl2
+    intro hrep hml hLall hseg hfl1 hfl2
     rw [rdN_getD (by rw [hml]; exact hlt), W.lift_ok_bind, hrep, rdN_getD (by rw [hr0]; exact hlt), W.lift_ok_bind]
     obtain ⟨hs1, hs2, hs3⟩ := hseg g (Nat.le_refl _) hlt
     have hmaxeq : max (s.minIdx.getD g 0) (rep0.getD g 0) = rep0.getD g 0 := by omega
     -- the flag position for this frame
-    obtain ⟨p1, p2⟩ := wRepeatsOfFrame_spec hv g last lastLong (if g + 1 < nbF then none else (if last then llp else none))
-      (s.minIdx.getD g 0) (rep0.getD g 0) s.written hs2 0 (by
+    obtain ⟨p1, p2⟩ := wRepeatsOfFrame_spec hv hD g last lastLong (if g + 1 < nbF then none else (if last then llp else none))
+      (s.minIdx.getD g 0) (rep0.getD g 0) s.written hs2 0 (hLall g (Nat.le_refl _) hlt) (by
         intro j' e hj1 hj2 he hef
         by_cases hgl : g + 1 < nbF
         · simp only [hgl, if_true]
@@ -160,6 +244,10 @@ theorem wRepeatsLoop_spec (hv : AllValid exts nbF) (mx : List Nat) (R : Nat) (la
     rw [hmaxeq, hrep] at ih'
     obtain ⟨s', q1, q2, q3, q4, q5, q6, q7, q8⟩ := ih'
       rfl (by simp [hml])
+      (fun g' h1 h2 x hx => by
+        simp only at hx
+        rw [hset_ne g' (by omega)] at hx
+        exact hLall g' (by omega) h2 x hx)
       (fun g' h1 h2 => by
         have := hseg g' (by omega) h2
         simp only
@@ -187,9 +275,98 @@ theorem wRepeatsLoop_spec (hv : AllValid exts nbF) (mx : List Nat) (R : Nat) (la
         rw [remsFrom_end exts mx s.minIdx (by omega)]
         simp [repBlock]
   | case2 g s hge =>
-    intro hrep hml _ _ _
+    intro hrep hml _ _ _ _
     rw [remsFrom_end exts mx s.minIdx (by omega)]
     exact ⟨s, rfl, hrep, rfl, hml, fun _ _ => rfl, fun g' h1 h2 => by omega, by simp [takeTotal], by simp [W.pure_eq, content, repBlock]⟩
+
+theorem wRepeatsOfFrame_res_ok (hv : AllIF exts nbF) (g : Nat) (last : Bool) (lastLong : Option Nat)
+    (j hi written : Nat) (hhi : hi ≤ exts.size) :
+    (∀ x ∈ seg exts j hi g, LenOk x) →
+    (wRepeatsOfFrame exts g last lastLong j hi written).res = .ok (written + (seg exts j hi g).length) := by
+  fun_induction wRepeatsOfFrame exts g last lastLong j hi written with
+  | case1 j written hlt ih2 ih1 =>
+    intro hL
+    have hin : j < exts.size := by omega
+    have hget : exts[j]? = some exts[j] := Array.getElem?_eq_getElem hin
+    have hrd : rdE exts j = .ok exts[j] := by simp only [rdE]; rw [hget]
+    have hif := hv j _ hget
+    have hsegstep := seg_step exts j hi g _ hlt hget
+    rw [hrd, W.lift_ok_bind, hsegstep]
+    by_cases hfe : exts[j].frame = (g : Int)
+    · have hfn : exts[j].frame.toNat = g := by have := hif.fr_lo; omega
+      have hok : LenOk exts[j] := hL _ (by rw [hsegstep]; simp [hfn])
+      simp only [hfe, if_true]
+      have hff : ((g : Int)).toNat = g := by omega
+      simp only [hff, if_true, List.singleton_append, List.length_cons]
+      rw [W.bind_of_ok _ (wPayload_res_ok hif hok _)]
+      simp only
+      rw [ih2 (fun x hx => hL x (by rw [hsegstep]; exact List.mem_append_right _ hx))]
+      congr 1; omega
+    · have hfn : ¬ exts[j].frame.toNat = g := by have := hif.fr_lo; omega
+      simp only [hfe, hfn, if_false, List.nil_append]
+      exact ih1 (fun x hx => hL x (by rw [hsegstep]; simp [hfn]; exact hx))
+  | case2 j written hge =>
+    intro _
+    rw [seg_empty exts g (by omega)]
+    simp [W.pure_eq]
+
+/-- A repeated extension of some later frame with an inadmissible length makes the loop over the later
+    frames return `OPUS_BAD_ARG`. -/
+theorem wRepeatsLoop_bad (hv : AllIF exts nbF) (last : Bool) (lastLong : Option Nat)
+    (rep0 : List Nat) (hr0 : rep0.length = nbF) (g : Nat) (s : GSt) :
+    s.repIdx = rep0 → s.minIdx.length = nbF →
+    (∀ g', g ≤ g' → g' < nbF → rep0.getD g' 0 ≤ exts.size) →
+    (∃ g', g ≤ g' ∧ g' < nbF ∧ ∃ x ∈ seg exts (s.minIdx.getD g' 0) (rep0.getD g' 0) g', ¬ LenOk x) →
+    (wRepeatsLoop exts nbF last lastLong g s).res = .err .badArg := by
+  fun_induction wRepeatsLoop exts nbF last lastLong g s with
+  | case1 g s hlt ih =>
+    intro hrep hml hb hbad
+    rw [rdN_getD (by rw [hml]; exact hlt), W.lift_ok_bind, hrep, rdN_getD (by rw [hr0]; exact hlt), W.lift_ok_bind]
+    have hs2 := hb g (Nat.le_refl _) hlt
+    by_cases hhere : ∃ x ∈ seg exts (s.minIdx.getD g 0) (rep0.getD g 0) g, ¬ LenOk x
+    · exact W.bind_of_err _ (wRepeatsOfFrame_bad hv g last lastLong _ _ _ hs2 hhere)
+    · have hLg : ∀ x ∈ seg exts (s.minIdx.getD g 0) (rep0.getD g 0) g, LenOk x := by
+        intro x hx; apply Decidable.byContradiction; intro hc; exact hhere ⟨x, hx, hc⟩
+      rw [W.bind_of_ok _ (wRepeatsOfFrame_res_ok hv g last lastLong _ _ s.written hs2 hLg)]
+      simp only
+      have hset_ne : ∀ (v : Nat) g', g' ≠ g → (s.minIdx.set g v).getD g' 0 = s.minIdx.getD g' 0 :=
+        fun v g' hg => getD_set_ne' _ _ _ _ (fun h => hg h.symm)
+      obtain ⟨g', h1, h2, x, hx, hxb⟩ := hbad
+      have hgg : g' ≠ g := by intro h; subst h; exact hhere ⟨x, hx, hxb⟩
+      have ih' := ih (s.minIdx.getD g 0) (rep0.getD g 0) (s.written + (seg exts (s.minIdx.getD g 0) (rep0.getD g 0) g).length)
+      rw [hrep] at ih'
+      exact ih' rfl (by simp [hml]) (fun g'' h1' h2' => hb g'' (by omega) h2')
+        ⟨g', by omega, h2, x, by simp only; rw [hset_ne _ g' hgg]; exact hx, hxb⟩
+  | case2 g s hge =>
+    intro _ _ _ ⟨g', h1, h2, _⟩; omega
+
+/-- When all repeated extensions have admissible lengths the loop over the later frames succeeds and leaves
+    `frame_repeat_idx` alone. -/
+theorem wRepeatsLoop_res_ok (hv : AllIF exts nbF) (last : Bool) (lastLong : Option Nat)
+    (rep0 : List Nat) (hr0 : rep0.length = nbF) (g : Nat) (s : GSt) :
+    s.repIdx = rep0 → s.minIdx.length = nbF →
+    (∀ g', g ≤ g' → g' < nbF → rep0.getD g' 0 ≤ exts.size) →
+    (∀ g', g ≤ g' → g' < nbF → ∀ x ∈ seg exts (s.minIdx.getD g' 0) (rep0.getD g' 0) g', LenOk x) →
+    ∃ s3, (wRepeatsLoop exts nbF last lastLong g s).res = .ok s3 ∧ s3.repIdx = rep0 := by
+  fun_induction wRepeatsLoop exts nbF last lastLong g s with
+  | case1 g s hlt ih =>
+    intro hrep hml hb hL
+    rw [rdN_getD (by rw [hml]; exact hlt), W.lift_ok_bind, hrep, rdN_getD (by rw [hr0]; exact hlt), W.lift_ok_bind]
+    have hs2 := hb g (Nat.le_refl _) hlt
+    rw [W.bind_of_ok _ (wRepeatsOfFrame_res_ok hv g last lastLong _ _ s.written hs2 (hL g (Nat.le_refl _) hlt))]
+    simp only
+    have hset_ne : ∀ (v : Nat) g', g' ≠ g → (s.minIdx.set g v).getD g' 0 = s.minIdx.getD g' 0 :=
+      fun v g' hg => getD_set_ne' _ _ _ _ (fun h => hg h.symm)
+    have ih' := ih (s.minIdx.getD g 0) (rep0.getD g 0) (s.written + (seg exts (s.minIdx.getD g 0) (rep0.getD g 0) g).length)
+    rw [hrep] at ih'
+    exact ih' rfl (by simp [hml]) (fun g'' h1' h2' => hb g'' (by omega) h2')
+      (fun g' h1 h2 x hx => by
+        simp only at hx
+        rw [hset_ne _ g' (by omega)] at hx
+        exact hL g' (by omega) h2 x hx)
+  | case2 g s hge =>
+    intro hrep _ _ _
+    exact ⟨s, rfl, hrep⟩
 
 end
 end Opus.ExtProofs
